@@ -29,6 +29,7 @@ func c15Alphabet(c Cfg) []Op {
 		{p("a", "S"), d("a"), p("a", "S")},
 		{p("b", "S"), p("a", "S"), p("b", "S"), p("a", "S")},
 		{d("a"), p("b", "S")},
+		{d("a"), p("a", "S")}, // a tombstone staged for an existing key, turned back into a put
 	} {
 		a = append(a, Op{K: "batch", Sub: body, Dev: true})
 	}
